@@ -1,8 +1,10 @@
 package labrt
 
 import (
+	"bytes"
 	"context"
 	"fmt"
+	"io"
 	"net/http"
 	"runtime/debug"
 	"sort"
@@ -25,6 +27,16 @@ type burstCall struct {
 	Hdr     []KV   `json:"hdr"`
 	CallCT  string `json:"callct"`
 	Helpers []KV   `json:"helpers"`
+	Raw     *rawCall `json:"raw"` // when set: a plain HTTP request instead of a generated-client call
+}
+
+// rawCall is a hand-made request sent inside a burst (malformed bodies / URL values that a
+// generated client cannot produce), interleaved with generated-client calls.
+type rawCall struct {
+	Method string `json:"method"`
+	Target string `json:"target"`
+	Hdr    []KV   `json:"hdr"`
+	Body   string `json:"body"` // b64
 }
 
 type burstSpec struct {
@@ -151,6 +163,32 @@ func doBurst(c *cmd) {
 							res["stack"] = string(debug.Stack())
 						}
 					}()
+					if bc.Raw != nil {
+						ctx, cancel := context.WithTimeout(context.Background(), to)
+						defer cancel()
+						hreq, err := http.NewRequestWithContext(ctx, bc.Raw.Method, b.URL+bc.Raw.Target, bytes.NewReader(unb64(bc.Raw.Body)))
+						if err != nil {
+							res["harness"] = err.Error()
+							return
+						}
+						for _, kv := range bc.Raw.Hdr {
+							hreq.Header.Add(kv.K, kv.V)
+						}
+						hresp, err := hc.Do(hreq)
+						if err != nil {
+							res["err"] = map[string]any{"class": "transport", "text": err.Error()}
+							if ctx.Err() != nil {
+								res["timeout"] = true
+							}
+							return
+						}
+						body, _ := io.ReadAll(hresp.Body)
+						hresp.Body.Close()
+						res["status"] = hresp.StatusCode
+						res["body"] = b64(body)
+						res["ct"] = hresp.Header.Get("Content-Type")
+						return
+					}
 					inv := shared[bc.Client]
 					if b.PerCallClient {
 						var err error
